@@ -39,8 +39,13 @@ pub fn run_child(cfg: &Cfg, spec: &ShardSpec, n: u64, f: &dyn Fn(u64, &mut Acc))
     while i < n {
         let _ = wal.seek(std::io::SeekFrom::Start(0));
         let _ = wal.write_all(format!("{:020}\n", i).as_bytes());
-        if let Err(p) = crate::util::panics::catch(|| f(i, &mut acc)) {
+        let traced = i % 3 == 1;
+        if let Err(p) = crate::util::panics::catch(|| crate::util::trace::scoped(traced, || f(i, &mut acc))) {
             acc.inconclusive(format!("harness panicked in case {}: {}", i, p.0));
+        }
+        if traced {
+            acc.inc("cases_run_under_a_trace_subscriber");
+            acc.count("trace_events_and_spans_formatted", crate::util::trace::take_count());
         }
         i += spec.of;
     }
